@@ -55,7 +55,7 @@ def encStrColumn (seed idx : Nat) (octets : Nat) (strs : List (List Nat)) : List
   match strs with
   | [] => []
   | s0 :: rest =>
-    if rest.all (· = s0) ∧ c % 3 ≠ 0 then strBits s0 ++ bitsMSB 6 0
+    if rest.all (· = s0) ∧ (c % 3 ≠ 0 ∨ octets > 63) then strBits s0 ++ bitsMSB 6 0   -- 6 bits cannot announce more than 63 octets
     else
       let r0 : List Nat := if c % 2 = 0 then List.replicate octets 0 else List.replicate octets (32 + c % 90)
       strBits r0 ++ bitsMSB 6 octets ++ strs.flatMap strBits
